@@ -262,10 +262,27 @@ def parse_list_N(out):
     return [int(x) for x in inner.split(";") if x]
 
 
+_BUILT = set()
+
+
+def _ensure_built(imports):
+    """The modules a case file imports are brought up to date first (a theorem file need not depend on
+    the executable check module, so building Props/Cxx.vo alone can leave it stale)."""
+    want = [("theories/%s.vo" % i.replace(".", "/")) for i in imports
+            if os.path.exists(os.path.join(COQ, "theories", i.replace(".", "/") + ".v"))]
+    want = [w for w in want if w not in _BUILT]
+    if want:
+        ok, out = build_coq(want)
+        if not ok:
+            raise Fail("the executable model does not build:\n" + out[-3000:])
+        _BUILT.update(want)
+
+
 def coq_failures(imports, case_type, checker, terms, name, shards=None, timeout=1500):
     """Evaluate `checker` on every case term inside Coq (vm_compute); returns failing indices."""
     if not terms:
         return []
+    _ensure_built(imports)
     shards = shards or min(NCPU, max(1, len(terms) // 20))
     size = (len(terms) + shards - 1) // shards
     chunks = [(i, terms[i:i + size]) for i in range(0, len(terms), size)]
@@ -286,6 +303,7 @@ def coq_failures(imports, case_type, checker, terms, name, shards=None, timeout=
 
 
 def coq_eval(imports, term, name, timeout=600):
+    _ensure_built(imports)
     body = "From VLS Require Import %s.\nEval vm_compute in (%s).\n" % (" ".join(imports), term)
     rc, out = coqc_snippet(body, name, timeout=timeout)
     return out.strip()
